@@ -9,8 +9,8 @@ What the code does, as small total functions:
 * `classify` — the ordered `switch` of `HandleError` (HTTP) and `intercept` (Envoy gRPC) as a case table.
 * `negotiate` — `contenttype.GetAcceptableMediaType[FromHeader]` on a parsed `Accept` header.
 * `Translator` — everything that distinguishes the two translators (case table, default codes, option guards,
-  media preference, fallback); `http` and `grpc` are the two instances, re-extracted from the source on every run
-  (`Gen/ErrMapGen.lean`) and compared with these constants.
+  media preference, fallback); `http` and `grpc` are the two instances, re-derived on every run from probes of the
+  running code (`Gen/ErrMapGen.lean`) and compared with these constants.
 * `Ctx`, `wwwAuthenticateExec`, `redirectExec`, `finalize` — the error path of the request contexts.
 
 Core Lean only (the driver executable links this file).
@@ -216,7 +216,7 @@ def Guard.accepts : Guard → Int → Bool
   | .neZero, c => c != 0
   | .gtZero, c => c > 0
 
-/-- everything that distinguishes a translator; both instances are regenerated from the source on every run -/
+/-- everything that distinguishes a translator; both instances are re-derived from the running code on every run -/
 structure Translator where
   /-- the `switch` -/
   cases : List Case
